@@ -26,6 +26,10 @@ def norm_path(p):
 
 class Program:
     def __init__(self, facts):
+        from .rename import canonicalise
+        if "_renamed" not in facts:
+            facts = canonicalise(facts)      # renamed private anchors -> the names the rule tables know (engines/rename.py)
+        self.renamed = facts.get("_renamed", [])
         self.raw = facts
         self.crate = facts["crate"]
         self.features = facts["features"]
@@ -49,9 +53,84 @@ class Program:
         return self.fns.get(path)
 
     def find(self, suffix):
-        """Functions whose path ends with `suffix` (module-qualified); generic argument lists are ignored."""
+        """Functions whose path ends with `suffix` (module-qualified); generic argument lists are ignored.  A private
+        function that the rules know by name and that has been renamed is found through its structural role."""
         sfx = short_path(suffix)
-        return [f for f in self.fn_list if f.spath == sfx or f.spath.endswith("::" + sfx)]
+        out = [f for f in self.fn_list if f.spath == sfx or f.spath.endswith("::" + sfx)]
+        if not out:
+            for canon, f in self.roles().items():
+                if canon == sfx or canon.endswith("::" + sfx):
+                    out.append(f)
+        return out
+
+    # ---- structural roles of private functions (rename-robust anchors) ------------------------------------------
+    def roles(self):
+        """{canonical path: Fn} for the private functions the rule tables mention by name, discovered by what they do
+        rather than by what they are called.  When the original name still exists it wins."""
+        if getattr(self, "_roles", None) is not None:
+            return self._roles
+        roles = {}
+        by_mod = defaultdict(list)
+        for f in self.fn_list:
+            if f.kind != "Closure" and not f.is_derived():
+                by_mod[f.module].append(f)
+
+        def calls(f, suffix):
+            if not f.mir:
+                return False
+            return any(short_path((f.mir.callee(t) or {}).get("path", "")).endswith(suffix) for _, t in f.mir.calls())
+
+        def out_str(f):
+            sig = f.raw.get("sig") or {}
+            return (sig.get("output_str") or str(sig.get("output") or "")) if isinstance(sig, dict) else ""
+
+        def pick(canon, cands):
+            named = [f for f in self.fn_list if f.spath == canon]
+            if named:
+                roles[canon] = named[0]
+            elif len(cands) == 1:
+                roles[canon] = cands[0]
+
+        comp = [f for f in by_mod.get("algorithms::compact", []) if not f.impl and f.hir]
+        pick("algorithms::compact::shift_diff_ops_up",
+             [f for f in comp if calls(f, "DiffOp::shift_left") and calls(f, "DiffOp::tag")])
+        pick("algorithms::compact::shift_diff_ops_down",
+             [f for f in comp if calls(f, "DiffOp::shift_right") and calls(f, "DiffOp::tag")])
+        up, down = roles.get("algorithms::compact::shift_diff_ops_up"), roles.get("algorithms::compact::shift_diff_ops_down")
+        if up is not None and down is not None:
+            pick("algorithms::compact::cleanup_diff_ops",
+                 [f for f in comp if f is not up and f is not down and f.mir and
+                  any((f.mir.callee(t) or {}).get("path") in (up.path, down.path) or
+                      short_path((f.mir.callee(t) or {}).get("path", "")) in (up.spath, down.spath) for _, t in f.mir.calls())])
+        lcs = [f for f in by_mod.get("algorithms::lcs", []) if not f.impl and f.hir]
+        pick("algorithms::lcs::make_table", [f for f in lcs if "Map<" in out_str(f) and "Option" in out_str(f)])
+        my = [f for f in by_mod.get("algorithms::myers", []) if not f.impl and f.hir]
+        snake = [f for f in my if out_str(f).replace(" ", "").endswith("Option<(usize,usize)>")]
+        pick("algorithms::myers::find_middle_snake", snake)
+        sn = roles.get("algorithms::myers::find_middle_snake")
+        if sn is not None:
+            pick("algorithms::myers::conquer",
+                 [f for f in my if f is not sn and f.mir and any((f.mir.callee(t) or {}).get("path") == f.path or
+                                                                short_path((f.mir.callee(t) or {}).get("path", "")) == f.spath
+                                                                for _, t in f.mir.calls())])
+        inl = [f for f in by_mod.get("text::inline", []) if f.hir]
+        pick("text::inline::push_values",
+             [f for f in inl if not f.impl and any(pp.get("ty") == "bool" for pp in f.hir.get("params", [])) and
+              any("Vec<std::vec::Vec<(bool" in (pp.get("ty") or "").replace(" ", "").replace("Vec<Vec", "Vec<std::vec::Vec") or
+                  "Vec<Vec<(bool" in (pp.get("ty") or "").replace(" ", "") for pp in f.hir.get("params", []))])
+        pick("text::inline::MultiLookup::get_original_slices",
+             [f for f in inl if f.impl and "MultiLookup" in str(f.impl.get("self_ty")) and
+              out_str(f).replace(" ", "").startswith(("std::vec::Vec<(usize,", "Vec<(usize,"))])
+        self._roles = roles
+        return roles
+
+    def canon(self, path):
+        """Canonical (rule-table) short path of a function: its role name if it plays one, else its own short path."""
+        sp = short_path(path)
+        for canon, f in self.roles().items():
+            if f.spath == sp or f.path == path:
+                return canon
+        return sp
 
     def trait_impls(self, trait_path):
         return [i for i in self.impls if i["trait"] and i["trait"]["path"] == trait_path]
